@@ -11,6 +11,18 @@ CHECKS = {
         text="Lean proof that collect+emplace+TAB filter is a fixed point on every FreshDoc for every user text and any number of regenerations (C01_fixed_point, C01_iterate, C01_each_block_once_in_order; shipped templates re-checked by decide over regenerated data); tied to the code by differential runs of Preservative.CollectFile/Emplace and of all public generators against the model, with the fixed-point oracle evaluated on the real trees.",
         ref="DESIGN.md 6/C01", technique="Lean 4 proof (induction over documents) + model/implementation correspondence",
         note="Assumes: Lean kernel + propext/Classical.choice/Quot.sound; translator; template expansion enters as the captured fresh code model; text decoding and os.path are modelled and validated by correspondence only. Known finding uml-overload-tag-collision (duplicated UML operation tags) is exercised by a witness probe."),
+    "C02": dict(
+        text="Lean proof of the commuting diagram regen(F1, disk(F0,B)) = fresh(F1) filled with the old bodies of the shared tags, for arbitrary unrelated F0/F1 and any chain of models (C02_commuting_diagram, C02_chain, C02_chain_body, C02_outside_text_independent, C02_no_foreign_attachment); tied to the code by running chains of model mutations through all generators, comparing with (fresh generation of the new model) + (old blocks) and with the Lean pipeline model.",
+        ref="DESIGN.md 6/C02", technique="Lean 4 proof (induction over documents and model chains) + model/implementation correspondence",
+        note="Same trusted base as C01. 'Expanded purely from the new model' is structural: the pass takes the finished expansion as input, and the captured expansion equals a fresh generation into an empty directory in every run."),
+    "C03": dict(
+        text="Lean proof that the LostCode entries are exactly the non-empty blocks of vanished tags, complete and in order (C03_lost_complete, C03_no_spurious_entry), that the name opened for them is abspath(outdir/file)+'.LostCode.txt' for every spelling of outdir and cwd (C03_location) and that it is in the returned list (C03_listed_in_result); byte-exact carry-over of undecodable files is decided by correspondence on files written in binary (the codec is trusted).",
+        ref="DESIGN.md 6/C03", technique="Lean 4 proof (filter/fold algebra, path lemmas) + model/implementation correspondence",
+        note="Same trusted base as C01 plus Python's surrogateescape codec. Bare CR bytes are outside the domain (universal-newline translation)."),
+    "C04": dict(
+        text="Lean proof that the preservation pass gives every file exactly the single-file regeneration of its own old content and own expansion, independent of all other files and expansions, for all file names (C04_isolation, C04_other_files_irrelevant, C04_other_expansions_irrelevant); tied to the code by marker-multiset histories over machines whose file names contain one another and by synthetic code models through preserve_usercode_in_files/createoutput.",
+        ref="DESIGN.md 6/C04", technique="Lean 4 proof (fold invariant over the ordered dictionary) + model/implementation correspondence",
+        note="Same trusted base as C01. Hypotheses: code-model keys pairwise distinct, no generated file named like another's LostCode file. Known finding uml-overload-tag-collision (duplicate tag inside one file) via witness probe."),
 }
 PENDING = {}
 
